@@ -404,7 +404,7 @@ func rulesC19(c *Ctx) {
 			if !ok {
 				return
 			}
-			for _, e := range cc.List {
+			for _, e := range caseValues(cc) {
 				tag, ok := cfw.ConstString(e)
 				if !ok {
 					continue
@@ -648,7 +648,7 @@ func rulesC19(c *Ctx) {
 			ok := false
 			for _, l := range f.AllLits() {
 				for _, w := range Writes(l.Body, false) {
-					if cl, isCL := ast.Unparen(w.RHS).(*ast.CompositeLit); isCL && w.RHS != nil && len(cl.Elts) == 0 {
+					if _, nonNil := l.emptySlice(w.RHS); nonNil {
 						lg := l.Graph()
 						if lg.VertexOf(w.Stmt) == lg.Entry {
 							ok = true
